@@ -71,6 +71,7 @@ pub fn search<M: Model>(name: &str, m: &M, max_depth: usize, max_states: usize) 
                 SiteStat {
                     count: 1,
                     first: FirstViol {
+                        nondet: false,
                         job,
                         choices: Vec::new(),
                         what: v.what,
